@@ -354,11 +354,16 @@ fn pbkw_4gib(prop: &mut Property, thorough: bool) {
                 check_roundtrip(&mut o, &base, false, &key, wrapped, expect, |s| subject(|| pk::pw_unwrap::<V, Local>(s, b"pw")));
             } else {
                 let (tx, rx) = std::sync::mpsc::channel();
+                let (started_tx, started_rx) = std::sync::mpsc::channel();
                 std::thread::spawn(move || {
                     let params = crate::backends::params_from_bytes::<V>(&pbytes);
+                    let _ = started_tx.send(());
                     let r = subject(|| pk::pw_wrap::<V, Local>(&key, b"pw", Some(&params)).map(|_| ()).map_err(|e| crate::payload::err_kind(&e)));
                     let _ = tx.send(r);
                 });
+                // the two seconds count from the moment the thread is actually running (a loaded machine may take a
+                // while to schedule it; a refusal must not be mistaken for a derivation in progress)
+                let _ = started_rx.recv_timeout(std::time::Duration::from_secs(30));
                 match rx.recv_timeout(std::time::Duration::from_millis(2000)) {
                     Err(_) => o.class("accepted-derivation-running"),
                     Ok(Ok(Ok(()))) => o.class("roundtrip-ok"),
